@@ -93,8 +93,11 @@ func ruleSqrtContext(w *World, r *RuleResult) {
 	// working precision strictly larger: WithPrecision(workp) where workp ≥ c.Precision+1
 	key = "(*Context).Sqrt | working precision exceeds the target"
 	okW := false
-	for _, c := range w.callsTo(f, "(*Context).WithPrecision") {
-		e := w.exprOf(f, c.Common().Args[1])
+	for _, ci := range w.ctorCalls(f) {
+		if ci.Prec == nil {
+			continue
+		}
+		e := w.exprOf(f, ci.Prec)
 		found := false
 		e.walk(func(x *Expr) bool {
 			if x.Op == "bin" && x.Name == "+" && x.Args[0].String() == "c.Precision" && x.Args[1].Op == "const" {
@@ -102,14 +105,33 @@ func ruleSqrtContext(w *World, r *RuleResult) {
 			}
 			return true
 		})
+		// the computation may sit in a pure helper: workp := sqrtWorkingPrecision(c.Precision, nd)
+		if hc, isCall := ci.Prec.(*ssa.Call); isCall && !found {
+			if h := callee(hc); h != nil && w.inPkg(h) && (h.Object() == nil || !h.Object().Exported()) {
+				for pi, a := range hc.Common().Args {
+					if w.exprOf(f, a).String() != "c.Precision" || pi >= len(h.Params) {
+						continue
+					}
+					for _, hb := range h.Blocks {
+						for _, in := range hb.Instrs {
+							if bo, isB := in.(*ssa.BinOp); isB && bo.Op == token.ADD && bo.X == ssa.Value(h.Params[pi]) {
+								if _, isK := bo.Y.(*ssa.Const); isK {
+									found = true
+								}
+							}
+						}
+					}
+				}
+			}
+		}
 		if found {
 			okW = true
 		}
 	}
 	// … and at least the operand's digit count (the scaled operand must be exact at working precision)
 	okN := false
-	for _, c := range w.callsTo(f, "(*Context).WithPrecision") {
-		if w.exprOf(f, c.Common().Args[1]).leaves()["call:(*Decimal).NumDigits"] {
+	for _, ci := range w.ctorCalls(f) {
+		if ci.Prec != nil && w.exprOf(f, ci.Prec).leaves()["call:(*Decimal).NumDigits"] {
 			okN = true
 		}
 	}
@@ -137,11 +159,16 @@ func (w *World) lastStoresVia(f *ssa.Function, ptr ssa.Value, field string, sel 
 		}
 		if x == ptr.(ssa.Instruction) {
 			// the context is created here: the field holds what the constructor copies
-			if c, ok := x.(*ssa.Call); ok && w.calleeName(c) == "(*Context).WithPrecision" {
-				if field == "Precision" {
-					return set{w.exprOf(f, c.Common().Args[1]).String(): true}
+			if c, ok := x.(*ssa.Call); ok {
+				if ci := w.ctxCtor(c); ci != nil {
+					if field == "Precision" && ci.Prec != nil {
+						return set{w.exprOf(f, ci.Prec).String(): true}
+					}
+					if v, stored := ci.Consts[field]; stored && v != "" {
+						return set{v: true}
+					}
+					return set{w.exprOf(f, ci.Src).String() + "." + field: true}
 				}
-				return set{w.exprOf(f, c.Common().Args[0]).String() + "." + field: true}
 			}
 		}
 		return cur
@@ -198,167 +225,188 @@ func ruleCbrtExactness(w *World, r *RuleResult) {
 		r.anchorMissing("(*Context).Cbrt")
 		return
 	}
-	key := "(*Context).Cbrt | exactness re-check"
-	ok := false
-	var cubeMuls []*ssa.Call
-	for _, b := range f.Blocks {
-		rt, isRet := b.Instrs[len(b.Instrs)-1].(*ssa.Return)
-		if !isRet || len(rt.Results) != 2 {
-			continue
+	di, xi := destArgIndex(w, f), -1
+	for i, p := range f.Params {
+		if i != di && isDecimalPtr(p.Type()) {
+			xi = i
 		}
-		bits, isK := condBits(rt.Results[0])
-		if !isK || bits != 0 || !isNilConst(rt.Results[1]) {
-			continue
+	}
+	// copies of the operand (or of its magnitude)
+	copies := map[ssa.Value]bool{}
+	for _, cn := range []string{"(*Decimal).Set", "(*Decimal).Abs"} {
+		for _, c := range w.callsTo(f, cn) {
+			if xi >= 0 && c.Common().Args[1] == ssa.Value(f.Params[xi]) {
+				copies[basePtr(c.Common().Args[0])] = true
+			}
 		}
-		for _, g := range guardsAt(b) {
-			bo, isB := g.Cond.(*ssa.BinOp)
-			if !isB || bo.Op != token.EQL || !g.Val {
-				continue
+	}
+	// cube comparisons: a Cmp of an operand copy with t·t·t, in Cbrt itself or in a helper that is handed
+	// the candidate t, the operand copy and the ErrDecimal that multiplies
+	type cubeCmp struct {
+		val   ssa.Value // the int result in Cbrt
+		cand  ssa.Value // base of the candidate that is cubed
+		exact bool      // the multiplications run under BaseContext itself
+	}
+	fromBase := func(g *ssa.Function, ed ssa.Value) bool {
+		for _, mk := range w.callsTo(g, "MakeErrDecimal") {
+			if gl, isG := basePtr(mk.Common().Args[0]).(*ssa.Global); isG && gl.Name() == "BaseContext" && w.sameErrDecimal(g, ed, mk) {
+				return true
 			}
-			call, isC := bo.X.(*ssa.Call)
-			k, isKK := bo.Y.(*ssa.Const)
-			if !isC || !isKK || ci(k) != 0 || w.calleeName(call) != "(*Decimal).Cmp" {
-				continue
-			}
-			// one side is a copy of the operand x, the other the cube computed from d
-			a0, a1 := basePtr(call.Common().Args[0]), basePtr(call.Common().Args[1])
-			di := destArgIndex(w, f)
-			xi := -1
-			for i, p := range f.Params {
-				if i != di && isDecimalPtr(p.Type()) {
-					xi = i
+		}
+		return false
+	}
+	type cubeSite struct {
+		cmp          *ssa.Call
+		cand, cp, ed ssa.Value
+	}
+	cubeIn := func(g *ssa.Function) (sites []cubeSite) {
+		// in g: Mul(ed, dst, t, t); Mul(ed, dst, dst, t); Cmp(dst, c)
+		for _, c := range w.callsTo(g, "(*Decimal).Cmp") {
+			for side := 0; side < 2; side++ {
+				dst := basePtr(c.Common().Args[side])
+				var t, ed ssa.Value
+				sq, cu := false, false
+				for _, m := range w.callsTo(g, "(*ErrDecimal).Mul") {
+					a := m.Common().Args
+					if basePtr(a[1]) != dst {
+						continue
+					}
+					// dst = t·t
+					if basePtr(a[2]) == basePtr(a[3]) && basePtr(a[2]) != dst {
+						sq, t, ed = true, basePtr(a[2]), a[0]
+					}
+				}
+				for _, m := range w.callsTo(g, "(*ErrDecimal).Mul") {
+					a := m.Common().Args
+					// dst = dst·t
+					if sq && basePtr(a[1]) == dst && ((basePtr(a[2]) == dst && basePtr(a[3]) == t) || (basePtr(a[3]) == dst && basePtr(a[2]) == t)) {
+						cu = true
+					}
+				}
+				if sq && cu {
+					sites = append(sites, cubeSite{c, t, basePtr(c.Common().Args[1-side]), ed})
 				}
 			}
-			fromX := func(v ssa.Value) bool {
-				// a copy of the operand or of its magnitude
-				for _, cn := range []string{"(*Decimal).Set", "(*Decimal).Abs"} {
-					for _, c := range w.callsTo(f, cn) {
-						if xi >= 0 && basePtr(c.Common().Args[0]) == v && c.Common().Args[1] == ssa.Value(f.Params[xi]) {
-							return true
+		}
+		return sites
+	}
+	var cmps []cubeCmp
+	for _, st := range cubeIn(f) {
+		if copies[st.cp] {
+			cmps = append(cmps, cubeCmp{st.cmp, st.cand, fromBase(f, st.ed)})
+		}
+	}
+	for _, h := range w.closureFuncs(f) {
+		if h == f {
+			continue
+		}
+		for _, st := range cubeIn(h) {
+			t, cp, ed := st.cand, st.cp, st.ed
+			// map the helper's parameters to the arguments at each call in Cbrt
+			idx := func(v ssa.Value) int {
+				for i, p := range h.Params {
+					if basePtr(v) == ssa.Value(p) {
+						return i
+					}
+				}
+				return -1
+			}
+			ti, ci, ei := idx(t), idx(cp), idx(ed)
+			for _, call := range w.callsTo(f, w.shortName(h)) {
+				a := call.Common().Args
+				if ti < 0 || ci < 0 || ei < 0 || !copies[basePtr(a[ci])] {
+					continue
+				}
+				cmps = append(cmps, cubeCmp{call, basePtr(a[ti]), fromBase(f, a[ei])})
+			}
+		}
+	}
+	key := "(*Context).Cbrt | exactness re-check"
+	if len(cmps) == 0 {
+		r.bad(key, w.pos(f.Pos()), "no comparison of the cube of a candidate with (a copy of) the operand: perfect cubes would report Inexact, or inexact roots would report exact")
+	} else {
+		// some return is reached where such a comparison came out equal, and it does not force Inexact
+		inexact := w.conditionConsts()["Inexact"]
+		okExact := false
+		for _, b := range f.Blocks {
+			rt, isRet := b.Instrs[len(b.Instrs)-1].(*ssa.Return)
+			if !isRet || w.isErrorReturn(rt) {
+				continue
+			}
+			underEq := false
+			for _, g := range guardsAt(b) {
+				bo, isB := g.Cond.(*ssa.BinOp)
+				if !isB {
+					continue
+				}
+				k, isK := bo.Y.(*ssa.Const)
+				if !isK || ci(k) != 0 || !((bo.Op == token.EQL && g.Val) || (bo.Op == token.NEQ && !g.Val)) {
+					continue
+				}
+				for _, cc := range cmps {
+					if bo.X == cc.val {
+						underEq = true
+					}
+				}
+			}
+			if !underEq {
+				continue
+			}
+			forced := false
+			w.exprOf(f, rt.Results[0]).walk(func(x *Expr) bool {
+				if x.Op == "const" {
+					if k, isK := x.V.(*ssa.Const); isK {
+						if bits, isC := condBits(k); isC && bits&inexact != 0 {
+							forced = true
 						}
 					}
 				}
-				return false
-			}
-			// the candidate: the destination itself, or a local that is copied into the destination
-			isCand := func(v ssa.Value) bool {
-				if v == ssa.Value(f.Params[di]) {
-					return true
-				}
-				for _, c := range w.callsTo(f, "(*Decimal).Set") {
-					if c.Common().Args[0] == ssa.Value(f.Params[di]) && basePtr(c.Common().Args[1]) == basePtr(v) {
-						return true
-					}
-				}
-				return false
-			}
-			fromD := func(v ssa.Value) bool {
-				n := 0
-				for _, c := range w.callsTo(f, "(*ErrDecimal).Mul") {
-					a := c.Common().Args
-					if basePtr(a[1]) == v && (isCand(a[2]) || isCand(a[3])) {
-						n++
-						cubeMuls = append(cubeMuls, c)
-					}
-				}
-				return n >= 2
-			}
-			if (fromX(a0) && fromD(a1)) || (fromX(a1) && fromD(a0)) {
-				ok = true
+				return true
+			})
+			if !forced {
+				okExact = true
 			}
 		}
-	}
-	// no return may deliver the rounding flags before the exactness test has been made
-	if ok {
-		var exact *ssa.If
-		for _, b := range f.Blocks {
-			if iff, isIf := b.Instrs[len(b.Instrs)-1].(*ssa.If); isIf {
-				if bo, isB := iff.Cond.(*ssa.BinOp); isB && bo.Op == token.EQL {
-					if call, isC := bo.X.(*ssa.Call); isC && w.calleeName(call) == "(*Decimal).Cmp" {
-						exact = iff
-					}
-				}
-			}
+		if okExact {
+			r.ok(key, w.pos(f.Pos()), fmt.Sprintf("%d comparisons of candidate³ with the operand copy; where one is equal the result is returned without a forced Inexact", len(cmps)), true)
+		} else {
+			r.bad(key, w.pos(f.Pos()), "no return under `candidate³ == operand` that leaves Inexact unset: perfect cubes would report Inexact")
 		}
-		rounds := w.callsTo(f, "(*Context).round")
-		for _, final := range rounds {
-			// the roundings of the destination itself (the candidate's rounding writes a local)
-			if exact == nil || basePtr(final.Common().Args[1]) != ssa.Value(f.Params[destArgIndex(w, f)]) {
-				continue
-			}
-			for _, b := range f.Blocks {
-				rt, isRet := b.Instrs[len(b.Instrs)-1].(*ssa.Return)
-				if !isRet || !(b == final.Block() || reaches(final.Block(), b)) {
-					continue
-				}
-				if bits, isK := condBits(rt.Results[0]); isK && bits == 0 {
-					continue // (0, err) / (0, nil)
-				}
-				if !exact.Block().Dominates(b) {
-					ok = false
-					r.bad(key, w.instrPos(rt), "the rounding flags can be returned before the exactness test operand == d³ has been made: a perfect cube would report Inexact (or trap)")
-				}
-			}
-		}
-	}
-	if ok {
-		r.ok(key, w.pos(f.Pos()), "(0, nil) is returned only under operand == d·d·d; otherwise the rounding flags", true)
-	} else if countKey(r, key) == 0 {
-		r.bad(key, w.pos(f.Pos()), "no return of zero flags guarded by `operand copy`.Cmp(d³) == 0: perfect cubes would report Inexact, or inexact roots would report exact")
-	}
-	// the cube is computed without rounding: a p-digit root has a 3p-digit cube
-	if ok && len(cubeMuls) > 0 {
+		// the cube is computed without rounding: a p-digit root has a 3p-digit cube
 		k2 := "(*Context).Cbrt | the cube of the candidate is computed exactly"
-		exactCtx := true
-		for _, m := range cubeMuls {
-			// receiver: an ErrDecimal made from BaseContext itself (Precision 0 = no rounding)
-			okM := false
-			for _, mk := range w.callsTo(f, "MakeErrDecimal") {
-				if gl, isG := basePtr(mk.Common().Args[0]).(*ssa.Global); isG && gl.Name() == "BaseContext" {
-					if _, viaCopy := mk.Common().Args[0].(*ssa.Call); !viaCopy && w.sameErrDecimal(f, m.Common().Args[0], mk) {
-						okM = true
-					}
-				}
-			}
-			if !okM {
-				exactCtx = false
+		allExact := true
+		for _, cc := range cmps {
+			if !cc.exact {
+				allExact = false
 			}
 		}
-		if exactCtx {
-			r.ok(k2, w.pos(f.Pos()), "d·d·d is formed under BaseContext (Precision 0: no digit limit)", true)
+		if allExact {
+			r.ok(k2, w.pos(f.Pos()), "candidate³ is formed under BaseContext (Precision 0: no digit limit)", true)
 		} else {
 			r.bad(k2, w.pos(f.Pos()), "the cube compared with the operand is computed in a precision-limited context: the cube of a p-digit root has up to 3p digits, so perfect cubes whose root uses the whole precision are reported Inexact (Cbrt(100544625) = 465 at precision 3)")
 		}
-		// the candidate was rounded to nearest, whatever the caller's mode
-		k3 := "(*Context).Cbrt | the candidate tested for exactness is rounded to nearest"
-		halfEven := w.rounderConsts()["RoundHalfEven"]
-		nearest := false
+		// the value rounded in the caller's mode is built from the located candidate, not the raw iterate
+		k3 := "(*Context).Cbrt | the result is rounded from the located candidate, not from the iterate"
+		iter := map[ssa.Value]bool{}
+		for _, lc := range w.callsTo(f, "(*loop).done") {
+			iter[basePtr(lc.Common().Args[1])] = true
+		}
+		var badRound []string
+		nRound := 0
 		for _, rc := range w.callsTo(f, "(*Context).round") {
-			isCandDest := false
-			for _, m := range cubeMuls {
-				for _, a := range m.Common().Args[2:] {
-					if basePtr(a) == basePtr(rc.Common().Args[1]) {
-						isCandDest = true
-					}
-				}
+			if basePtr(rc.Common().Args[0]) != ssa.Value(f.Params[0]) || basePtr(rc.Common().Args[1]) != ssa.Value(f.Params[di]) {
+				continue // roundings under private contexts (truncation to the candidate) are not the result's
 			}
-			if !isCandDest {
-				continue
-			}
-			base := basePtr(rc.Common().Args[0])
-			if base == ssa.Value(f.Params[0]) {
-				continue // the caller's own context: its mode may be directed
-			}
-			for _, st := range storesIn(f) {
-				if fa, isFA := st.Addr.(*ssa.FieldAddr); isFA && basePtr(fa.X) == base && w.exprOf(f, st.Addr).Name == "Rounding" && w.exprOf(f, st.Val).String() == halfEven {
-					nearest = true
-				}
+			nRound++
+			src := basePtr(rc.Common().Args[2])
+			if iter[src] && !w.precisionZeroGuard(f, rc.Block()) {
+				badRound = append(badRound, w.instrPos(rc))
 			}
 		}
-		if nearest {
-			r.ok(k3, w.pos(f.Pos()), "rounded under a private context with Rounding = RoundHalfEven", true)
+		if len(badRound) > 0 {
+			r.bad(k3, w.pos(f.Pos()), "the Newton iterate itself is rounded in the caller's mode at "+joinStrings(badRound)+": an iterate is only an approximation, so under a directed mode the result lands a whole unit off (Cbrt(8) = 2.01 under RoundUp at precision 3; Cbrt(0.999999999) = 1.01 under RoundCeiling)")
 		} else {
-			r.bad(k3, w.pos(f.Pos()), "the iterate is an approximation; rounded in the caller's (possibly directed) mode a perfect cube's candidate lands one unit off and the exact root is missed (Cbrt(8) = 2.01 under RoundUp at precision 3)")
+			r.ok(k3, w.pos(f.Pos()), fmt.Sprintf("%d rounding(s) of the destination under the caller's context, none of them of the iterate (except with rounding disabled)", nRound), nRound > 0)
 		}
 	}
 	for _, name := range []string{"(*Context).Sqrt", "(*Context).Cbrt"} {
@@ -666,6 +714,24 @@ func (w *World) sameErrDecimal(f *ssa.Function, v ssa.Value, mk *ssa.Call) bool 
 	base := basePtr(v)
 	for _, st := range storesIn(f) {
 		if st.Val == ssa.Value(mk) && basePtr(st.Addr) == base {
+			return true
+		}
+	}
+	return false
+}
+
+// precisionZeroGuard: block b is reached only where c.Precision == 0 (rounding disabled).
+func (w *World) precisionZeroGuard(f *ssa.Function, b *ssa.BasicBlock) bool {
+	for _, g := range guardsAt(b) {
+		bo, ok := g.Cond.(*ssa.BinOp)
+		if !ok {
+			continue
+		}
+		k, isK := bo.Y.(*ssa.Const)
+		if !isK || ci(k) != 0 || !strings.HasSuffix(w.exprOf(f, bo.X).String(), ".Precision") {
+			continue
+		}
+		if (bo.Op == token.EQL && g.Val) || (bo.Op == token.NEQ && !g.Val) {
 			return true
 		}
 	}
